@@ -20,6 +20,11 @@ func run(c *hx.Ctx) {
 		c28(c)
 	case "C29":
 		c29(c)
+	case "C28RELINK":
+		c.Type, c.Agree = "c28_case", "c28_agree"
+		for _, b := range relinkProbe(genKeys(c.Rng, 5), c.N) {
+			c.Failf("c28-execute-panic-relink", map[string]any{"kind": "relink-probe"}, "%s", b)
+		}
 	case "C29GAP":
 		c.Type, c.Agree = "c29_case", "c29_agree"
 		for _, b := range gapRace(genKeys(c.Rng, 5), c.N, 3*time.Second) {
